@@ -166,6 +166,8 @@ def call_builtin(ex, name, args, kw, star, node):
             f = z3.Function("sized", c.Id, z3.BoolSort())
             if not ex.branch(f(x.term)):
                 raise SymRaise("TypeError", w)
+            if getattr(ex.spec, "len_axioms", False):
+                c.len_axiom(x.term)
             return VInt(c.len_of(x.term))
         raise Unsupported("len(%s)" % type(x).__name__)
     if name == "next":
@@ -293,6 +295,23 @@ def call_builtin(ex, name, args, kw, star, node):
         return VOpaque("float")
     if name == "random.seed":
         return VVal(c.NONE)
+    if name in ("dict.__getitem__", "dict.__setitem__", "dict.__delitem__"):
+        d = args[0]
+        if not isinstance(d, VDict):
+            raise Unsupported("%s on %s" % (name, type(d).__name__))
+        if name == "dict.__getitem__":
+            return ex.getitem(d, args[1], w)
+        if name == "dict.__setitem__":
+            ex.setitem(d, args[1], args[2], w)
+            return VVal(c.NONE)
+        ex.delitem(d, args[1], w)
+        return VVal(c.NONE)
+    if name == "range":
+        if len(args) == 1:
+            return VRange(z3.IntVal(0), ex.tint(args[0]), 1)
+        if len(args) == 2:
+            return VRange(ex.tint(args[0]), ex.tint(args[1]), 1)
+        raise Unsupported("range with a step")
     if name == "sum":
         x = args[0]
         if isinstance(x, VGen):
